@@ -76,6 +76,17 @@ def replay(arg):
     for k, v in (("accuracy", acc.accuracy), ("precision", acc.precision), ("recall", acc.recall), ("f1", acc.f1score)):
         if not ratio_eq(v, sc[k]):
             mism.append(("score-" + k, "%s = %r, specification %s" % (k, v, sc[k]), rep))
+    # nested per-frame input (two frames), scored twice: same answer, input untouched
+    h = len(res) // 2
+    frames = [list(res[:h]), list(res[h:])]
+    lens = [len(f) for f in frames]
+    a1 = ClassificationAccuracy(frames, len(gts), [])
+    a2 = ClassificationAccuracy(frames, len(gts), [])
+    if [len(f) for f in frames] != lens:
+        mism.append(("nested-input-mutated", "ClassificationAccuracy changed the per-frame lists it was given (%s -> %s)" % (lens, [len(f) for f in frames]), rep))
+    for k, v1, v2 in (("accuracy", a1.accuracy, a2.accuracy), ("precision", a1.precision, a2.precision), ("recall", a1.recall, a2.recall), ("f1", a1.f1score, a2.f1score)):
+        if not ratio_eq(v1, sc[k]) or not ratio_eq(v2, sc[k]):
+            mism.append(("score-nested-" + k, "nested input: %s = %r then %r, specification %s" % (k, v1, v2, sc[k]), rep))
     table = TL if family == "tlr" else AW
     targets = sorted({o.semantic_label.label for o in re_ + rg}, key=lambda l: l.value)
     ms = ClassificationMetricsScore({k: [v] for k, v in divide_objects(res, targets).items()}, divide_objects_to_num(rg, targets), targets)
